@@ -694,6 +694,30 @@ def wrapping_nodes(form, out=None):
     return out
 
 
+def _index_like(c, wrap):
+    """slice form of `base[range]` for a call term `c` whose operands are (base, range aggregate)."""
+    rk = peel(c.a[1][1])
+    if not (rk.op == "agg" and rk.a[0][0] == "adt"):
+        return None
+    b = c.a[1][0]
+    sb = slice_form(b, wrap)
+    if sb is None:
+        bb = strip_sites(peel(b))
+        sb = (bb, ("c", 0), ("len", bb))
+    base, s0, e0 = sb
+    name, ops = rk.a[0][1], rk.a[1]
+    f = lambda t: int_form(t, wrap)
+    if name == "RangeTo":
+        return (base, s0, ("add", s0, f(ops[0])))
+    if name == "RangeFrom":
+        return (base, ("add", s0, f(ops[0])), e0)
+    if name == "Range":
+        return (base, ("add", s0, f(ops[0])), ("add", s0, f(ops[1])))
+    if name == "RangeFull":
+        return (base, s0, e0)
+    return None
+
+
 def slice_form(x, wrap=False):
     """(base, start, end) with start/end length forms, for index/split_at/sub-slice expressions; None for a plain value."""
     x = peel(x)
@@ -719,6 +743,17 @@ def slice_form(x, wrap=False):
         if name == "RangeFull":
             return (base, s0, e0)
         return None
+    if x.op == "field" and x.a[1] == "0" and x.a[0].op == "downcast" and x.a[0].a[1] == "Some":
+        # `base.get(range)` on its Some arm is `&base[range]` (the bounds test is the arm itself)
+        c = peel(x.a[0].a[0])
+        if c.op == "call" and cname(c) in ("slice::<impl [T]>::get", "slice::<impl [T]>::get_mut") and len(c.a[1]) == 2:
+            return _index_like(c, wrap)
+    if x.op == "field" and x.a[1] == "1" and x.a[0].op == "field" and x.a[0].a[1] == "0" and x.a[0].a[0].op == "downcast" and x.a[0].a[0].a[1] == "Some":
+        # `let Some((first, rest)) = base.split_first()`: rest = base[1..]; split_last: rest = base[..len-1]
+        c = peel(x.a[0].a[0].a[0])
+        if c.op == "call" and cname(c) in ("slice::<impl [T]>::split_first", "slice::<impl [T]>::split_last") and len(c.a[1]) == 1:
+            base, s0, e0 = whole(c.a[1][0])
+            return (base, ("add", s0, ("c", 1)), e0) if cname(c).endswith("split_first") else (base, s0, ("sub", e0, ("c", 1)))
     if x.op == "field" and x.a[1] in ("0", "1"):
         c = x.a[0]
         while c.op in ("ref", "deref"):
